@@ -2,7 +2,7 @@
    Statements only; every proof is [exact Lemmas.<name>]. *)
 From Coq Require Import ZArith QArith List Bool.
 Import ListNotations.
-From GV Require Import Common.Wire C14.Model C14.Lemmas.
+From GV Require Import Common.Wire gen.Gen_datamut C14.Model C14.Lemmas C14.GenEquiv.
 Open Scope Z_scope.
 
 (* For every dataset (any stored / pixel / world attributes with any per-axis broadcast flags, any derived attributes
@@ -57,3 +57,36 @@ Theorem remove_order_independent : forall c l1 l2, NoDup (keys l1) -> NoDup (key
   forall x k, In (x, k) (remove_fuel (length l1) c l1) <-> In (x, k) (remove_fuel (length l2) c l2).
 Proof. exact Lemmas.remove_order_independent. Qed.
 Print Assumptions remove_order_independent.
+
+(* ---- tie of the removal cascade to the source by translation.  [g_remove_fuel] (Model.v) is Data.remove_component /
+   Data._removed_derived_that_depend_on as REGENERATED from glue/core/data.py on every run (tools/gen/gen_datamut.py ->
+   coq/gen/Gen_datamut.v), instantiated with the component table as the object state ([env14]). ---- *)
+
+(* the generated cascade computes, on every table with distinct ids and with any fuel, what the hand-written model computes *)
+Theorem gen_remove_is_model : forall n c l, NoDup (keys l) ->
+  Gen_datamut.remove_component env14 n c l = Model.remove_fuel n c l.
+Proof. exact GenEquiv.gen_remove_is_model. Qed.
+Print Assumptions gen_remove_is_model.
+
+(* remove_closure, about the generated code: what remains is the old table in its old order minus exactly c and everything
+   that depends on c directly or transitively (a fuel equal to the number of attributes suffices) *)
+Theorem gen_remove_closure : forall c l, NoDup (keys l) -> In c (keys l) ->
+  let l' := Gen_datamut.remove_component env14 (length l) c l in
+  (exists f, l' = filter f l) /\
+  (forall x k, In (x, k) l -> (In (x, k) l' <-> ~ dependent l c x)).
+Proof. exact GenEquiv.gen_remove_closure. Qed.
+Print Assumptions gen_remove_closure.
+
+(* remove_order_independent, about the generated code *)
+Theorem gen_remove_order_independent : forall c l1 l2, NoDup (keys l1) -> NoDup (keys l2) -> (forall e, In e l1 <-> In e l2) ->
+  forall x k, In (x, k) (Gen_datamut.remove_component env14 (length l1) c l1)
+          <-> In (x, k) (Gen_datamut.remove_component env14 (length l2) c l2).
+Proof. exact GenEquiv.gen_remove_order_independent. Qed.
+Print Assumptions gen_remove_order_independent.
+
+(* remove_values, about the generated code: every attribute that remains keeps its value *)
+Theorem gen_remove_values : forall c d, NoDup (keys (dcomps d)) ->
+  let d' := g_remove_component c d in
+  forall fuel x idx, In x (keys (dcomps d')) -> sem fuel d' x idx = sem fuel d x idx.
+Proof. exact GenEquiv.gen_remove_values. Qed.
+Print Assumptions gen_remove_values.
